@@ -332,8 +332,8 @@ def norm_tokens(toks, drop_comments=False):
     """Collapse whitespace runs, trim the ends; comments kept (they are content the tool must carry through)."""
     out = []
     for t in toks:
-        if drop_comments and t[0] == "comment":
-            continue
+        if t[0] == "comment" and (drop_comments or t[1] == ""):
+            continue  # an empty comment only separates tokens (tinycss2's serialiser inserts them, e.g. 2n/**/+1)
         if t[0] == "ws" and out and out[-1][0] == "ws":
             continue
         out.append(t)
